@@ -108,6 +108,8 @@ use tokio::sync::watch;
 use vh::util::*;
 
 const EXCHANGE: ExchangeId = ExchangeId::BinanceSpot;
+/// a venue that is tracked for its market data only: instruments and dataset items, but no ExecutionConfig
+const DATA_ONLY_EXCHANGE: ExchangeId = ExchangeId::Kraken;
 /// dataset items are one hour of exchange time apart; the wall-clock delta `HistoricalClock` adds
 /// on top of the exchange time of the last processed event must stay below this slack
 const SPACING_S: i64 = 3600;
@@ -571,7 +573,8 @@ impl<Clock, ExecutionTxs, Risk> OnDisconnectStrategy<Clock, State, ExecutionTxs,
         use barter::engine::state::connectivity::Health;
         // (the hook does not say which link dropped: the account link did iff it was healthy
         //  after the last account event and is reconnecting now)
-        let account_down = engine.state.connectivity.connectivity(&exchange).account == Health::Reconnecting;
+        // (a data-only venue has no account link that could drop: its notice is a market-data notice)
+        let account_down = exchange == EXCHANGE && engine.state.connectivity.connectivity(&exchange).account == Health::Reconnecting;
         if engine.state.global.acct_healthy && account_down {
             engine.state.global.acct_healthy = false;
             engine.state.global.log.push(Obs::AcctDisc);
@@ -785,8 +788,8 @@ fn instruments(untraded_exchange: bool) -> IndexedInstruments {
         .add_instrument(Instrument::spot(EXCHANGE, "binance_spot_btc_usdt", "BTCUSDT", Underlying::new("btc", "usdt"), None))
         .add_instrument(Instrument::spot(EXCHANGE, "binance_spot_eth_usdt", "ETHUSDT", Underlying::new("eth", "usdt"), None));
     if untraded_exchange {
-        // instrument index 2 on an exchange that is tracked but has no execution link (probe only)
-        b.add_instrument(Instrument::spot(ExchangeId::Kraken, "kraken_spot_btc_usdt", "XBT/USDT", Underlying::new("btc", "usdt"), None)).build()
+        // instrument index 2 on an exchange that is tracked but has no execution link (a data-only venue)
+        b.add_instrument(Instrument::spot(DATA_ONLY_EXCHANGE, "kraken_spot_btc_usdt", "XBT/USDT", Underlying::new("btc", "usdt"), None)).build()
     } else {
         b.build()
     }
@@ -815,15 +818,22 @@ fn mock_config(latency_ms: u64) -> MockExecutionConfig {
 /// Dataset item `id` (1-based): instrument and price are functions of (data_seed, id).
 /// `late`: (id, lag): item id is `lag` seconds OLDER than its predecessor's slot (a late / re-published
 /// tick) - exchange times need not increase along a dataset.
-fn dataset(n: usize, data_seed: u64, recs: &[u32], late: &[(u32, i64)]) -> Vec<Item> {
+/// `data_only`: about a third of the items (ticks and `Reconnecting` notices alike) belong to instrument 2 on
+/// `DATA_ONLY_EXCHANGE` - a venue the engine tracks for its prices but that has NO execution link (a reference
+/// market). They are items of the dataset like any other and must reach the engine, in order.
+/// `points`: the shared decision points of a gated scenario are items of TRADED instruments (the gate after a
+/// decision point is released by the run's own progress on it, so it must be an item the strategy acts on).
+fn dataset(n: usize, data_seed: u64, recs: &[u32], late: &[(u32, i64)], data_only: bool, points: &[u32]) -> Vec<Item> {
     let mut rng = vh::util::rng(data_seed ^ 0xC20);
-    let mut price = [100i64, 50i64];
+    let mut price = [100i64, 50i64, 101i64];
     (1..=n as u32)
         .map(|id| {
-            let inst = if id <= 2 { (id - 1) as usize } else { rng.random_range(0..2usize) };
+            let inst = if id <= 2 { (id - 1) as usize } else { rng.random_range(0..if data_only { 3usize } else { 2usize }) };
+            let inst = if points.contains(&id) { inst % 2 } else { inst };
             price[inst] = (price[inst] + rng.random_range(-3..=3i64)).clamp(10, 400);
+            let exchange = if inst == 2 { DATA_ONLY_EXCHANGE } else { EXCHANGE };
             if recs.contains(&id) {
-                return MarketStreamEvent::Reconnecting(EXCHANGE);
+                return MarketStreamEvent::Reconnecting(exchange);
             }
             let t = match late.iter().find(|l| l.0 == id) {
                 Some((_, lag)) => time(SPACING_S * (id as i64 - 1) - lag),
@@ -832,7 +842,7 @@ fn dataset(n: usize, data_seed: u64, recs: &[u32], late: &[(u32, i64)]) -> Vec<I
             MarketStreamEvent::Item(MarketEvent {
                 time_exchange: t,
                 time_received: t,
-                exchange: EXCHANGE,
+                exchange,
                 instrument: InstrumentIndex(inst),
                 kind: Tick { tag: 0, id, price: dec(price[inst]) },
             })
@@ -965,14 +975,14 @@ fn plan(seed: u64, tier: &str) -> Vec<Value> {
         for (vi, v) in variants.iter().enumerate() {
             name += 1;
             out.push(json!({"name": format!("g{name}"), "mode": "gated", "workers": 1, "n": n, "data_seed": data_seed, "recs": recs,
-                            "points": points, "latency_ms": latency, "alone": true, "late": late, "runs": [{"variant": vi, "acts": v}]}));
+                            "points": points, "latency_ms": latency, "alone": true, "late": late, "data_only": dsi % 2 == 1, "runs": [{"variant": vi, "acts": v}]}));
         }
         for (gi, (k, w)) in grid.iter().enumerate() {
             name += 1;
             // rotate so that argument order differs between scenarios
             let runs: Vec<Value> = (0..*k).map(|r| { let vi = (r + gi) % kmax; json!({"variant": vi, "acts": variants[vi]}) }).collect();
             out.push(json!({"name": format!("g{name}"), "mode": "gated", "workers": w, "n": n, "data_seed": data_seed, "recs": recs,
-                            "points": points, "latency_ms": latency, "alone": false, "late": late, "ids": batch_ids(*k, gi + dsi + 1), "runs": runs}));
+                            "points": points, "latency_ms": latency, "alone": false, "late": late, "data_only": dsi % 2 == 1, "ids": batch_ids(*k, gi + dsi + 1), "runs": runs}));
         }
     }
     // ---- in-memory (the repository's MarketDataInMemory): consumption clauses only ------------
@@ -1027,7 +1037,7 @@ fn plan(seed: u64, tier: &str) -> Vec<Value> {
                 })
                 .collect();
             out.push(json!({"name": format!("m{name}"), "mode": "inmem", "workers": w, "n": n, "data_seed": data_seed, "recs": recs,
-                            "points": [], "latency_ms": gi % 2, "alone": *k == 1, "late": late, "ids": batch_ids(*k, gi + dsi), "runs": runs}));
+                            "points": [], "latency_ms": gi % 2, "alone": *k == 1, "late": late, "data_only": dsi % 2 == 1, "ids": batch_ids(*k, gi + dsi), "runs": runs}));
         }
     }
     // ---- paused clock: the data source takes (virtual) milliseconds to days ---------------------
@@ -1058,7 +1068,7 @@ fn plan(seed: u64, tier: &str) -> Vec<Value> {
             })
             .collect();
         out.push(json!({"name": format!("p{name}"), "mode": "paused", "workers": 1, "n": n, "data_seed": data_seed, "recs": recs,
-                        "points": [], "latency_ms": dsi % 3, "gaps": profile, "alone": *k == 1, "late": late, "ids": batch_ids(*k, dsi + 1), "runs": runs}));
+                        "points": [], "latency_ms": dsi % 3, "gaps": profile, "alone": *k == 1, "late": late, "data_only": dsi % 2 == 0, "ids": batch_ids(*k, dsi + 1), "runs": runs}));
     }
     // ---- a market data source that FAILS part way (its stream panics after k of n items) --------
     // (n, gaps, api, fails per run)
@@ -1140,8 +1150,9 @@ fn run_scenario(scn: &Value, trace: &mut Out, results: &mut Out, totals: &mut Va
     if fails.iter().any(|f| f.is_some()) && !paused {
         usage("a failing data source is available in the paused family only");
     }
-    let events = Arc::new(dataset(n, data_seed, &recs, &late));
-    let instruments = instruments(scn["untraded_exchange"].as_bool().unwrap_or(false));
+    let data_only = scn["data_only"].as_bool().unwrap_or(false);
+    let events = Arc::new(dataset(n, data_seed, &recs, &late, data_only, &points));
+    let instruments = instruments(data_only || scn["untraded_exchange"].as_bool().unwrap_or(false));
     let engine_state: State = EngineState::builder(&instruments, RecGlobal::default(), RecInst::default)
         .time_engine_start(time(3600))
         .trading_state(TradingState::Enabled)
